@@ -300,8 +300,11 @@ def hmf_solve_body(case):
     sp, iv = hmf_data(case)
     K = case['K']
     eps = case['epsilon']
-    if case.get('dark_col') and sp.shape[1] >= 8 and sp.shape[0] >= 3:
-        j_ = sp.shape[1] // 2 + 1
+    if case.get('dark_col') and sp.shape[1] >= 8 and sp.shape[0] >= 3 and not case.get('dead_mid') and not case.get('dead_edge'):
+        # (three pixels from the red end, and not together with the other kinds of bad columns: HMF keeps the longest run of usable pixels,
+        # and a run shortened from several sides can leave a spectrum with fewer weighted pixels than components - a singular, ill-posed
+        # problem of the harness' own making; seen once at seed 9 and corrected)
+        j_ = sp.shape[1] - 3
         sp[:, j_] = 0.0
         iv[1, j_] = 0.0
         sp[1, j_] = 3.7
